@@ -1,0 +1,18 @@
+//go:build verif
+
+package service
+
+import "sync/atomic"
+
+// VerifBuffer exposes the unexported ring buffer to the verification harness.
+type VerifBuffer = buffer
+
+// VerifNewBuffer creates a ring buffer exactly like the service does.
+func VerifNewBuffer(size int64) (*VerifBuffer, error) { return newBuffer(size) }
+
+// VerifResetCounters resets the process-wide service and buffer counters so
+// that every simulated run starts from the same state.
+func VerifResetCounters() {
+	atomic.StoreUint64(&gsvcid, 0)
+	atomic.StoreInt64(&bufcnt, 0)
+}
